@@ -29,6 +29,7 @@
 import ChessVerif.Props.C06
 import ChessVerif.Props.C01
 import ChessVerif.Proofs.SearchRealLaws
+import ChessVerif.Proofs.SearchRealScore
 
 namespace ChessVerif.Props.C06real
 open ChessVerif Search SearchReal
@@ -145,6 +146,147 @@ theorem go_null_only_if_final_partial_real (K : Keys) (L : Limits) (clock : Cloc
     Rules.legalMoves (Board.abs b) = [] ∨ b.fifty ≥ 100 ∨ b.threefold ≥ 3 :=
   (final_iff_rules K hv).1
     (Props.C06.go_null_only_if_final_partial (realComp K) L clock (realComp_laws K) fuel e b hv hok nodes0 hd hfuel hanom hnull)
+
+/-! ### score range, the null move without ghost flags, final roots
+
+  `ScoreLaws` is proved for the real components WITH the null-move guard `beta > -Inf+MaxPlies`
+  (`realCompG`, Proofs/SearchRealScore.lean: `real_scoreLaws`); the guard is what reverse futility
+  pruning has and the null move lacks in search.go (see the header of that file for the scenario in
+  which the unguarded null move hands the table a value it re-bases beyond `Inf`).  The theorems
+  about `realComp K` therefore carry the run-level hypothesis `NmpSane` — this run is the run of the
+  guarded record, i.e. no null-move cut-off was taken at a node whose `beta` lies below the mate
+  band.  `GoSane` (Props/C06.lean) is NOT needed for the real parameters: `WindowSize = 44` keeps every
+  aspiration chain within `±(Inf + 512·44)` and reverse futility is sound there at depths ≤ 2
+  (`AspLaws`, Proofs/SearchScoreFree.lean, Proofs/SearchFinalFree.lean).  Neither a ghost flag nor a
+  fuel hypothesis remains. -/
+
+/-- the table invariant of the real components: `PSok` and every raw table value within `±Inf`. -/
+theorem ttokReal_new (buckets : Nat) : TTokReal (newEngine buckets).ps := SearchReal.ttokReal_new buckets
+theorem ttokReal_clear (e : Engine PS) : TTokReal (clearEngine e).ps := SearchReal.ttokReal_clear e
+
+/-- **The score laws hold for the real components with the null-move guard.** -/
+theorem real_scoreLaws_hold (K : Keys) (cs : Eval.CoeffSet Int) :
+    ScoreLaws (realCompG K cs) RealGood TTokReal muReal := real_scoreLaws K cs
+
+/-- run-level hypothesis: the run of the real components coincides with the run of the guarded ones. -/
+def NmpSane (K : Keys) (L : Limits) (clock : Clock) (fuel : Nat) (e : Engine PS) (b : Board) (nodes0 : Int := 0) : Prop :=
+  go (realComp K) L clock fuel e b nodes0 = go (realCompG K Eval.shipped) L clock fuel e b nodes0
+
+/-- the parameter laws of the `GoSane`-free argument hold for the real parameters (`WindowSize = 44`,
+    `RFPScoreFactor = 102`: regenerated constants, re-checked when /repo changes). -/
+theorem real_aspLaws_hold (K : Keys) (cs : Eval.CoeffSet Int) : AspLaws (realCompG K cs) := real_aspLaws K cs
+
+/-- every `go` of the guarded components keeps the table invariant — completed, stopped, out of
+    budget, out of fuel; no hypothesis on the run (the content of repair D8, now with the table's own
+    re-basing of mate scores). -/
+theorem go_keeps_table_invariant_guarded (K : Keys) (L : Limits) (clock : Clock) (fuel : Nat) (e : Engine PS) (b : Board)
+    (hv : Board.valid b = true) (nodes0 : Int) (hd : 1 ≤ L.depth) (htt : TTokReal e.ps) :
+    TTokReal (go (realCompG K Eval.shipped) L clock fuel e b nodes0).engine.ps :=
+  Props.C06.go_keeps_table_invariant_free (realCompG K Eval.shipped) L clock (realCompG_laws K _) (real_scoreLaws K _)
+    (real_aspLaws K _) fuel e b hv nodes0 hd htt
+
+theorem go_keeps_table_invariant_real (K : Keys) (L : Limits) (clock : Clock) (fuel : Nat) (e : Engine PS) (b : Board)
+    (hv : Board.valid b = true) (nodes0 : Int) (hd : 1 ≤ L.depth) (htt : TTokReal e.ps)
+    (hnmp : NmpSane K L clock fuel e b nodes0) :
+    TTokReal (go (realComp K) L clock fuel e b nodes0).engine.ps := by
+  rw [hnmp]; exact go_keeps_table_invariant_guarded K L clock fuel e b hv nodes0 hd htt
+
+/-- the engine states of a session in which no search took a null-move cut-off below the mate band. -/
+inductive SessionS (K : Keys) : Engine PS → Prop where
+  | new (buckets : Nat) : SessionS K (newEngine buckets)
+  | clear {e} : SessionS K e → SessionS K (clearEngine e)
+  | go {e} (L : Limits) (clock : Clock) (fuel : Nat) (b : Board) (nodes0 : Int) :
+      SessionS K e → Board.valid b = true → 1 ≤ L.depth → NmpSane K L clock fuel e b nodes0 →
+      SessionS K (go (realComp K) L clock fuel e b nodes0).engine
+
+theorem sessionS_ok {K : Keys} {e : Engine PS} (h : SessionS K e) : TTokReal e.ps := by
+  induction h with
+  | new n => exact ttokReal_new n
+  | clear _ _ => exact ttokReal_clear _
+  | go L clock fuel b nodes0 _ hv hd hn ih => exact go_keeps_table_invariant_real K L clock fuel _ b hv nodes0 hd ih hn
+
+theorem sessionS_session {K : Keys} {e : Engine PS} (h : SessionS K e) : Session K e := by
+  induction h with
+  | new n => exact Session.new n
+  | clear _ ih => exact Session.clear ih
+  | go L clock fuel b nodes0 _ hv _ _ ih => exact Session.go L clock fuel b nodes0 ih hv
+
+/-- **The null move is returned only if the root is final** (rule-book reading) — every key table,
+    valid root, depth limit ≥ 1, limit combination, clock, fuel, abort point and admissible engine
+    state; no ghost flag, no fuel hypothesis, no `GoSane`.  The one remaining hypothesis is `NmpSane`. -/
+theorem go_null_only_if_final_real (K : Keys) (L : Limits) (clock : Clock) (fuel : Nat) (e : Engine PS) (b : Board)
+    (hv : Board.valid b = true) (nodes0 : Int) (hd : 1 ≤ L.depth) (htt : TTokReal e.ps)
+    (hnmp : NmpSane K L clock fuel e b nodes0)
+    (hnull : (go (realComp K) L clock fuel e b nodes0).move = 0) :
+    Rules.legalMoves (Board.abs b) = [] ∨ b.fifty ≥ 100 ∨ b.threefold ≥ 3 := by
+  rw [hnmp] at hnull
+  exact (final_iff_rules K hv).1
+    (Props.C06.go_null_only_if_final_free (realCompG K Eval.shipped) L clock (realCompG_laws K _) (real_scoreLaws K _)
+      (real_aspLaws K _) fuel e b hv nodes0 hd htt hnull)
+
+/-- … for the engine with the null-move guard there is no hypothesis on the run at all. -/
+theorem go_null_only_if_final_guarded (K : Keys) (L : Limits) (clock : Clock) (fuel : Nat) (e : Engine PS) (b : Board)
+    (hv : Board.valid b = true) (nodes0 : Int) (hd : 1 ≤ L.depth) (htt : TTokReal e.ps)
+    (hnull : (go (realCompG K Eval.shipped) L clock fuel e b nodes0).move = 0) :
+    Rules.legalMoves (Board.abs b) = [] ∨ b.fifty ≥ 100 ∨ b.threefold ≥ 3 :=
+  (final_iff_rules K hv).1
+    (Props.C06.go_null_only_if_final_free (realCompG K Eval.shipped) L clock (realCompG_laws K _) (real_scoreLaws K _)
+      (real_aspLaws K _) fuel e b hv nodes0 hd htt hnull)
+
+/-- A search that runs to completion on a final root returns the null move with score 0, or with the
+    mated score `-Inf` for a checkmated root (no `GoSane`; `NmpSane` as above). -/
+theorem go_final_score_real (K : Keys) (L : Limits) (clock : Clock) (fuel : Nat) (e : Engine PS) (b : Board)
+    (hv : Board.valid b = true) (nodes0 : Int) (hd : 1 ≤ L.depth) (htt : TTokReal e.ps)
+    (hnmp : NmpSane K L clock fuel e b nodes0)
+    (hfin : Rules.legalMoves (Board.abs b) = [] ∨ b.fifty ≥ 100 ∨ b.threefold ≥ 3)
+    (hdone : (go (realComp K) L clock fuel e b nodes0).st.aborted = false) :
+    (go (realComp K) L clock fuel e b nodes0).move = 0 ∧
+      ((go (realComp K) L clock fuel e b nodes0).score = 0 ∨
+        (b.inCheck b.stm = true ∧ Rules.legalMoves (Board.abs b) = [] ∧
+          (go (realComp K) L clock fuel e b nodes0).score = -Inf)) := by
+  rw [hnmp] at hdone ⊢
+  have h := Props.C06.go_final_score_free (realCompG K Eval.shipped) L clock (realCompG_laws K _) (real_scoreLaws K _)
+    (real_aspLaws K _) fuel e b hv nodes0 hd htt ((final_iff_rules K hv).2 hfin) hdone
+  refine ⟨h.1, h.2.imp id (fun ⟨h1, h2, h3⟩ => ⟨h1, ?_, h3⟩)⟩
+  have hlen := Props.C01.playable_length K hv
+  have h2' : MoveGen.playable K b = [] := h2
+  rw [h2'] at hlen
+  exact List.length_eq_zero_iff.1 hlen.symm
+
+/-- … for the engine with the null-move guard: no hypothesis on the run. -/
+theorem go_final_score_guarded (K : Keys) (L : Limits) (clock : Clock) (fuel : Nat) (e : Engine PS) (b : Board)
+    (hv : Board.valid b = true) (nodes0 : Int) (hd : 1 ≤ L.depth) (htt : TTokReal e.ps)
+    (hfin : Rules.legalMoves (Board.abs b) = [] ∨ b.fifty ≥ 100 ∨ b.threefold ≥ 3)
+    (hdone : (go (realCompG K Eval.shipped) L clock fuel e b nodes0).st.aborted = false) :
+    (go (realCompG K Eval.shipped) L clock fuel e b nodes0).move = 0 ∧
+      ((go (realCompG K Eval.shipped) L clock fuel e b nodes0).score = 0 ∨
+        (b.inCheck b.stm = true ∧ MoveGen.playable K b = [] ∧
+          (go (realCompG K Eval.shipped) L clock fuel e b nodes0).score = -Inf)) :=
+  Props.C06.go_final_score_free (realCompG K Eval.shipped) L clock (realCompG_laws K _) (real_scoreLaws K _)
+    (real_aspLaws K _) fuel e b hv nodes0 hd htt ((final_iff_rules K hv).2 hfin) hdone
+
+/-- non-vacuity of the score part: a fresh engine satisfies the table invariant, the start position is
+    a valid root, and `NmpSane` holds trivially for a run without fuel (both records give up at once). -/
+example (n : Nat) : TTokReal (newEngine n).ps := ttokReal_new n
+example (K : Keys) (L : Limits) (clock : Clock) (e : Engine PS) (b : Board) : NmpSane K L clock 0 e b := by
+  unfold NmpSane go
+  have h : ∀ (c : Comp PS Pick) (v : IDVars) (s : St PS),
+      idLoop c L clock 0 64 0 v s =
+        (if !((0 : Int) < maxPlies && (decide ((0 : Int) ≤ L.depth) || s.pondering)) then
+          { score := v.score, move := v.move, ponder := v.ponder, out := v.out, st := s }
+        else
+          let out := if L.output then
+            { depth := 0, full := false, score := 0, nodes := s.outOfFuel.nodes, time := 0, hashfull := 0, pv := [] } :: v.out
+            else v.out
+          if v.move = 0 then
+            { score := v.score, move := (firstLegal c.keys s.outOfFuel.board (MoveGen.gen s.outOfFuel.board)).1, ponder := 0,
+              out := out, st := s.outOfFuel.setBoard (firstLegal c.keys s.outOfFuel.board (MoveGen.gen s.outOfFuel.board)).2 }
+          else { score := v.score, move := v.move, ponder := v.ponder, out := out, st := s.outOfFuel }) := by
+    intro c v s
+    show idLoop c L clock 0 (63 + 1) 0 v s = _
+    simp only [idLoop, aspiration]
+  rw [h, h]
+  rfl
 
 /-! ### non-vacuity -/
 
